@@ -3,7 +3,7 @@
    STUN-shaped or not): "unmodified" is identity of the token; packetio.Buffer is assumed FIFO. *)
 From Coq Require Import ZArith Bool List.
 From Ice Require Import Model.AgentTypes Model.AgentCore Model.AgentObs Model.AgentMonitors Gen.Consts
-     Proofs.AgentFrame Proofs.AgentC07.
+     Proofs.AgentFrame Proofs.AgentC07 Proofs.AgentC06 Proofs.AgentC03Sel Proofs.AgentRem Proofs.AgentEnds Proofs.AgentSentStats.
 Import ListNotations.
 Local Open Scope Z_scope.
 
@@ -108,3 +108,62 @@ Example C07_example :
   data_accepted l other (mkPayload 1 100 false) s = false /\
   data_accepted l src (mkPayload 1 100 true) s = false.
 Proof. vm_compute. repeat split. Qed.
+
+(* "while one pair stays selected that pair's packet and byte counters equal the same tallies" (sending side).
+   One operation (any but WriteToPair, which by design does not count on the connection), from any state with unique
+   pair ids whose selected pair p is listed: if a pair is still listed under that id afterwards, the connection's
+   sent-byte counter and the pair's moved by the same amount, and the pair's packet counter by one exactly when that
+   amount is positive. *)
+Theorem C07_selected_pair_counters_step : forall cfg s o id p,
+  InvU s -> (match o with AddRemote _ => Rm s | _ => True end) -> not_write_to_pair o ->
+  s_selected s = Some id -> In p (s_checklist s) -> p_id p = id ->
+  let s' := fst (step cfg s o) in
+  forall p', In p' (s_checklist s') -> p_id p' = id ->
+    s_bytes_sent s' - s_bytes_sent s = p_bytes_sent p' - p_bytes_sent p /\
+    p_pkts_sent p' - p_pkts_sent p = (if 0 <? s_bytes_sent s' - s_bytes_sent s then 1 else 0).
+Proof. exact step_sent_sync. Qed.
+Print Assumptions C07_selected_pair_counters_step.
+
+(* Over any stretch of an admissible history during which one pair stays selected (checked after every operation)
+   and only Conn.Write sends: bytes counted by the connection = bytes counted on that pair. *)
+Theorem C07_selected_pair_sent_bytes_track : forall cfg ops s id p,
+  G s -> Rc s -> ops_ok cfg s ops -> Forall not_write_to_pair ops -> sel_always cfg s ops id ->
+  In p (s_checklist s) -> p_id p = id ->
+  exists p', In p' (s_checklist (runs cfg s ops)) /\ p_id p' = id /\
+             s_bytes_sent (runs cfg s ops) - s_bytes_sent s = p_bytes_sent p' - p_bytes_sent p.
+Proof. exact selected_pair_sent_bytes_track. Qed.
+Print Assumptions C07_selected_pair_sent_bytes_track.
+
+(* non-vacuity: a controlled agent with a validated, nominated, selected pair; two writes and a tick in between *)
+Module C07_example_selected_pair.
+  Definition cfg := mkConfig false 5 7 5000000000 false 25000000000 2000000000 0 0 0 0 [] false false 1.
+  Definition l := mkCand 1 CandidateTypeHost NetworkTypeUDP4 (mkAddr false 167772161 5000) TCPTypeUnspecified 2130706431 1 None.
+  Definition src := mkAddr false 3232235777 6000.
+  Definition r := mkCand 2 CandidateTypeHost NetworkTypeUDP4 src TCPTypeUnspecified 2130706431 1 None.
+  Definition req := mkMsg 0 1 77 (Some (1, 3)) (Some 2) true (Some (true, 9)) (Some 100) None None None.
+  Definition resp := mkMsg 2 1 1 None (Some 4) false None None None None (Some (mkAddr false 167772161 5000)).
+  Definition setup := [AddLocal l; AddRemote r; Start false 3 4; InStun 1 src req; InStun 1 src resp].
+  Definition s := runs cfg (init 1 2) setup.
+  Definition ops := [Write (mkPayload 1 100 false); Tick; Write (mkPayload 2 50 false)].
+  Example setup_admissible : ops_ok cfg (init 1 2) (setup ++ ops).
+  Proof.
+    cbn [ops_ok op_ok setup ops app]. repeat split;
+      first [ intros l0 E; vm_compute in E; injection E as <-; reflexivity
+            | vm_compute; reflexivity
+            | vm_compute; intros [H|[]]; discriminate H
+            | vm_compute; intros [] ].
+  Qed.
+  Example hypotheses_hold :
+    G s /\ Rc s /\ ops_ok cfg s ops /\ Forall not_write_to_pair ops /\ sel_always cfg s ops 1 /\
+    exists p, In p (s_checklist s) /\ p_id p = 1.
+  Proof.
+    destruct (ops_ok_app cfg setup (init 1 2) ops setup_admissible) as [H1 H2].
+    destruct (runs_E cfg setup (init 1 2) (AgentC06.InvU_init 1 2) (Rc_init 1 2) H1) as [_ [HU HR]].
+    split; [|split; [exact HR|split; [exact H2|split; [repeat constructor|split]]]].
+    - unfold s, runs, setup. cbn [fold_left]. repeat apply step_G. apply G_init.
+    - vm_compute. repeat split.
+    - vm_compute. eexists. split; [left; reflexivity|reflexivity].
+  Qed.
+  Example counters_after : (s_bytes_sent (runs cfg s ops), map (fun p => (p_id p, p_bytes_sent p, p_pkts_sent p)) (s_checklist (runs cfg s ops))) = (150, [(1, 150, 2)]).
+  Proof. vm_compute. reflexivity. Qed.
+End C07_example_selected_pair.
